@@ -2,8 +2,9 @@
    (as the source is now: the single-crystal stiffness is looked up by *phase ordinal*,
    `phase_tensors[mineral.phase]`, the phase fraction by position of the phase in the
    assemblage) for any number of minerals, snapshots and grains.  The per-grain work is
-   done by the *generated* kernels of Gen_tensors (voigt_to_elastic_tensor, rotate,
-   elastic_tensor_to_voigt); only the validation and the triple loop are hand-written.
+   done by the *generated* kernels of Gen_tensors (voigt_to_elastic_tensor,
+   elastic_tensor_to_voigt) and by rotate4, the loop form of the generated k_rotate (see
+   below); only the validation and the triple loop are hand-written.
    Tied to the source by differential runs of the extracted code against
    pydrex.minerals.voigt_averages (harness/props/c10.py).  No proofs in this file. *)
 From Coq Require Import ZArith List Bool Arith.
@@ -34,6 +35,21 @@ Section Model.
        a 6%nat * b 2%nat + a 7%nat * b 5%nat + a 8%nat * b 8%nat].
   Definition eye3 : arr F := mk_arr zero [one; zero; zero; zero; one; zero; zero; zero; one].
 
+  (* pydrex.tensors.rotate written with its loops (the generated k_rotate is the same
+     function unrolled: 6561 products in one definition, which the OCaml compiler cannot
+     digest).  This loop form is what is extracted and run against the implementation;
+     Inst_tensors.rotate4_is_k_rotate (kernel-checked) ties it to the generated k_rotate.
+     Accumulation order = the order of the Python loops (a, b, c, d nested). *)
+  Definition idx4 : list (nat * nat * nat * nat) :=
+    flat_map (fun a => flat_map (fun b => flat_map (fun c =>
+      map (fun d => (a, b, c, d)) [0; 1; 2]) [0; 1; 2]) [0; 1; 2]) [0; 1; 2]%nat.
+  Definition rotate4_comp (t r : arr F) (i j k l : nat) : F :=
+    fold_left (fun acc abcd => let '(a, b, c, d) := abcd in
+                 acc + r (3 * i + a)%nat * r (3 * j + b)%nat * r (3 * k + c)%nat * r (3 * l + d)%nat
+                       * t (27 * a + 9 * b + 3 * c + d)%nat) idx4 zero.
+  Definition rotate4 (t r : arr F) : arr F :=
+    tab 81 (fun n => rotate4_comp t r (n / 27) ((n / 9) mod 3) ((n / 3) mod 3) (n mod 3)).
+
   (* a mineral as voigt_averages sees it *)
   Record mineral := mkMineral {
     m_phase : Z;                       (* MineralPhase ordinal *)
@@ -54,7 +70,7 @@ Section Model.
 
   (* elastic_tensor_to_voigt(rotate(C4, A.transpose()) * f * phi) *)
   Definition grain_term (C4 o : arr F) (f phi : F) : arr F :=
-    k_elastic_tensor_to_voigt (scale81 (scale81 (k_rotate C4 (transpose3 o)) f) phi).
+    k_elastic_tensor_to_voigt (scale81 (scale81 (rotate4 C4 (transpose3 o)) f) phi).
 
   (* evaluation order of the innermost expression: phase_tensors[phase],
      orientations[i][n], fractions[i][n], phase_assemblage.index(phase), phase_fractions[.] *)
